@@ -1218,6 +1218,11 @@ Section Parse.
       destruct Hts as (A & B & C). rewrite optional_miss_n by (rewrite (peek_typ_same ts' ts0 En); exact C).
       unfold ret. eexists. split; [reflexivity|]. rewrite norm_idem. exact En.
     - cbn [subs_toks app] in *. rewrite <- !app_assoc in *. cbn [app] in *.
+      assert (Es' : forall f l1, sub_toksp U F s' f l1 = sub_toks U F s' l1).
+      { intros. inversion Hsr as [|? ? [G _] _]; subst. destruct s'; try discriminate; reflexivity. }
+      assert (Ed' : forall f, sub_dlp s' f = sub_dl s').
+      { intros. inversion Hsr as [|? ? [G _] _]; subst. destruct s'; try discriminate; reflexivity. }
+      rewrite Es', Ed' in *.
       set (l0 := l + sub_dl s) in *.
       set (X := tk TOr [124; 124] l0 :: tk TEOL [10] l0 :: sub_toks U F s' (l0 + 1) ++ subs_toks U F hdr r false (l0 + 1 + sub_dl s') ++ ts0) in *.
       assert (HX : ends_sub X) by (split; reflexivity).
@@ -1247,6 +1252,11 @@ Section Parse.
     rewrite <- !app_assoc in *. cbn [app] in *.
     unfold read_gpos1. unfold bind at 1.
     inversion Hs as [|? ? Hs1 _]; subst.
+    assert (Es : forall f l1, sub_toksp U F s f l1 = sub_toks U F s l1)
+      by (intros; destruct Hs1 as [G _]; destruct s; try discriminate; reflexivity).
+    assert (Ed : forall f, sub_dlp s f = sub_dl s)
+      by (intros; destruct Hs1 as [G _]; destruct s; try discriminate; reflexivity).
+    rewrite Es, Ed in *.
     destruct (sub_toks_head_gpos s l Hs1) as (t & ts & Et & At).
     rewrite header_ok'; auto; [| |clear - Hf; fuel_tac].
     2:{ rewrite Et. cbn [app]. eauto. }
@@ -1753,8 +1763,8 @@ Section Parse.
     unfold lookup_toks, hdr_toks in *.
     cbn [l_subs l_type l_flags subs_toks app] in *.
     rewrite <- !app_assoc in *. cbn [app] in *.
-    destruct s as [h|c|cov delta|cov subst|cov repl|cov alts|cov repl|cov adj|cov adj]; try discriminate;
-      cbn [sub_type] in *; cbn [parse_loop]; unfold bind at 1; cbn [read ttyp tval];
+    destruct s as [p|h|c|cov delta|cov subst|cov repl|cov alts|cov repl|cov adj|cov adj]; try discriminate;
+      cbn [sub_type sub_toksp] in *; cbn [parse_loop]; unfold bind at 1; cbn [read ttyp tval];
       [ change (list_eqb (k_GSUB ++ digits 1) k_GSUB1) with true
       | change (list_eqb (k_GSUB ++ digits 1) k_GSUB1) with true
       | change (list_eqb (k_GSUB ++ digits 2) k_GSUB1) with false;
@@ -1846,7 +1856,7 @@ Section Parse.
       rewrite seqctx_step; auto; [|clear - Hf Hk; fuel_tac].
       unfold ctx_cont. unfold bind at 1. destruct (ends_list_props _ Ht) as (A & B & C).
       rewrite optional_miss by auto. reflexivity.
-    - cbn [map subs_toks] in *. cbn [sub_toks sub_dl] in *. rewrite <- !app_assoc in *. cbn [app] in *.
+    - cbn [map subs_toks] in *. cbn [sub_toksp sub_dlp sub_toks sub_dl] in *. rewrite <- !app_assoc in *. cbn [app] in *.
       set (l0 := l + ctx_dl c) in *.
       replace fuel with (nclasses c + S (fuel - nclasses c - 1))%nat by (clear - Hf Hk; fuel_tac).
       rewrite seqctx_step; auto; [|clear - Hf Hk; fuel_tac].
@@ -1879,7 +1889,7 @@ Section Parse.
     match goal with Hx : (ty =? 5) = true |- _ => apply N.eqb_eq in Hx; subst ty end.
     match goal with Hx : forallb _ subs = true |- _ => destruct (ctx_subs_shape _ Hx) as (cs & Es & Hcs) end.
     subst subs. destruct cs as [|c cs]; [discriminate|].
-    unfold lookup_toks, hdr_toks in *. cbn [l_subs l_type l_flags map subs_toks sub_toks sub_dl app] in *.
+    unfold lookup_toks, hdr_toks in *. cbn [l_subs l_type l_flags map subs_toks sub_toksp sub_dlp sub_toks sub_dl app] in *.
     rewrite <- !app_assoc in *. cbn [app] in *.
     cbn [parse_loop]. unfold bind at 1. cbn [read ttyp tval].
     change (list_eqb (k_GSUB ++ digits 5) k_GSUB1) with false.
@@ -2488,7 +2498,7 @@ Section Parse.
       rewrite chain_step; auto; [|clear - Hf Hk; fuel_tac].
       unfold chain_cont. unfold bind at 1. destruct (ends_list_props _ Ht) as (A & B & C).
       rewrite optional_miss by auto. reflexivity.
-    - cbn [map subs_toks] in *. cbn [sub_toks sub_dl] in *. rewrite <- !app_assoc in *. cbn [app] in *.
+    - cbn [map subs_toks] in *. cbn [sub_toksp sub_dlp sub_toks sub_dl] in *. rewrite <- !app_assoc in *. cbn [app] in *.
       set (l0 := l + chain_dl h) in *.
       replace fuel with (nclasses6 h + S (fuel - nclasses6 h - 1))%nat by (clear - Hf Hk; fuel_tac).
       rewrite chain_step; auto; [|clear - Hf Hk; fuel_tac].
@@ -2521,7 +2531,7 @@ Section Parse.
     match goal with Hx : (ty =? 6) = true |- _ => apply N.eqb_eq in Hx; subst ty end.
     match goal with Hx : forallb _ subs = true |- _ => destruct (chain_subs_shape _ Hx) as (hs & Es & Hcs) end.
     subst subs. destruct hs as [|h hs]; [discriminate|].
-    unfold lookup_toks, hdr_toks in *. cbn [l_subs l_type l_flags map subs_toks sub_toks sub_dl app] in *.
+    unfold lookup_toks, hdr_toks in *. cbn [l_subs l_type l_flags map subs_toks sub_toksp sub_dlp sub_toks sub_dl app] in *.
     rewrite <- !app_assoc in *. cbn [app] in *.
     cbn [parse_loop]. unfold bind at 1. cbn [read ttyp tval].
     change (list_eqb (k_GSUB ++ digits 6) k_GSUB1) with false.
@@ -2561,49 +2571,525 @@ Section Parse.
     destruct subs; [discriminate|]. reflexivity.
   Qed.
 
+  (* ================= GPOS3 ================= *)
+  (* the header when the lookup's text continues on the next line *)
+  Lemma rlf_list_nl : forall (nvs : list (list N * N)) l fuel acc lx t0 rest,
+    Forall (fun nv => flag_of_name builder_parseFlags (fst nv) = Some (snd nv)) nvs ->
+    (length nvs < fuel)%nat ->
+    read_lookup_flags endl fuel acc
+      (concat (map (fun nv => [t_hyphen l; tk TIdent (fst nv) l]) nvs) ++ tk TEOL [10] lx :: t0 :: rest)
+    = POk (fold_left (fun a nv => N.lor a (snd nv)) nvs acc, t0 :: rest).
+  Proof.
+    induction nvs as [|[nm v] nvs IH]; intros l fuel acc lx t0 rest Hn Hf;
+      (destruct fuel; [cbn in Hf; lia|]).
+    - cbn [map concat app fold_left read_lookup_flags].
+      unfold bind at 1. rewrite optional_miss by reflexivity.
+      unfold bind at 1. rewrite optional_hit by reflexivity. reflexivity.
+    - inversion Hn as [|? ? Hv Hn']; subst. cbn [fst snd] in Hv.
+      cbn [map concat app fold_left read_lookup_flags].
+      unfold bind at 1. rewrite optional_hit by reflexivity.
+      unfold bind at 1. rewrite read_identifier_hit. cbn [fst snd].
+      rewrite Hv. apply IH; auto. cbn in Hf. lia.
+  Qed.
+
+  Lemma header_ok_nl : forall fl l fuel lx t0 rest, flags_ok fl = true -> after_flags t0 = true ->
+    (length (flag_toks fl l) < fuel)%nat ->
+    lookup_header endl fuel (tk TColon [58] l :: flag_toks fl l ++ tk TEOL [10] lx :: t0 :: rest) = POk (fl, t0 :: rest).
+  Proof.
+    intros fl l fuel lx t0 rest Hfl Ht Hf. unfold lookup_header.
+    unfold bind at 1. rewrite optional_hit by reflexivity.
+    destruct (after_flags_props _ Ht) as [A B].
+    assert (Ah : ityp_eqb (ttyp t0) THyphen = false).
+    { unfold after_flags in Ht. repeat (apply andb_true_iff in Ht; destruct Ht as [Ht ?]).
+      apply negb_true_iff in Ht. exact Ht. }
+    assert (E1 : flag_toks fl l = concat (map (fun nv => [t_hyphen l; tk TIdent (fst nv) l]) (flag_nvs fl))).
+    { pose proof Hfl as Hc. apply flags_cases in Hc. repeat (destruct Hc as [Hc|Hc]); subst fl; reflexivity. }
+    assert (E2 : fold_left (fun a nv => N.lor a (snd nv)) (flag_nvs fl) 0 = fl).
+    { pose proof Hfl as Hc. apply flags_cases in Hc. repeat (destruct Hc as [Hc|Hc]); subst fl; reflexivity. }
+    assert (E3 : Forall (fun nv => flag_of_name builder_parseFlags (fst nv) = Some (snd nv)) (flag_nvs fl)).
+    { pose proof Hfl as Hc. apply flags_cases in Hc. repeat (destruct Hc as [Hc|Hc]); subst fl; repeat constructor. }
+    assert (E4 : (length (flag_nvs fl) <= length (flag_toks fl l))%nat).
+    { pose proof Hfl as Hc. apply flags_cases in Hc. repeat (destruct Hc as [Hc|Hc]); subst fl; cbn; lia. }
+    unfold bind at 1.
+    destruct (flag_nvs fl) as [|nv nvs] eqn:En.
+    - rewrite E1. cbn [map concat app]. rewrite optional_hit by reflexivity.
+      destruct fuel; [cbn in Hf; lia|]. cbn [read_lookup_flags].
+      unfold bind at 1. rewrite optional_miss by auto.
+      unfold bind at 1. rewrite optional_miss by auto. cbn [fold_left] in E2. subst fl. reflexivity.
+    - rewrite E1. cbn [map concat app]. rewrite optional_miss by reflexivity.
+      change (t_hyphen l :: tk TIdent (fst nv) l :: concat (map (fun nv0 => [t_hyphen l; tk TIdent (fst nv0) l]) nvs) ++ tk TEOL [10] lx :: t0 :: rest)
+        with (concat (map (fun nv0 => [t_hyphen l; tk TIdent (fst nv0) l]) (nv :: nvs)) ++ tk TEOL [10] lx :: t0 :: rest).
+      rewrite rlf_list_nl; auto; [rewrite E2; reflexivity|lia].
+  Qed.
+
+  Lemma read_int16_hit' : forall v z l ts, atoi v = Some z -> int16_ok z = true ->
+    read_int16 endl (tk TInt v l :: ts) = POk (z, ts).
+  Proof.
+    intros v z l ts Ha H. unfold read_int16, bind, read. cbn [ttyp ityp_eqb tval]. rewrite Ha.
+    unfold int16_ok in H. assert (E : ((z <? -32768)%Z || (32767 <? z)%Z) = false) by lia. rewrite E. reflexivity.
+  Qed.
+
+  Definition rec_toks (g : N) (r : anchor * anchor) (l : N) : list token :=
+    [glyph_tok U F g l; t_colon l; tk TInt (digits_z (fst (fst r))) l; t_comma l; tk TInt (digits_z (snd (fst r))) l;
+     tk TIdent k_to l; tk TInt (digits_z (fst (snd r))) l; t_comma l; tk TInt (digits_z (snd (snd r))) l].
+
+  Lemma gpos3_toks_cons : forall g r recs first j0 l,
+    gpos3_toks U F ((g, r) :: recs) first j0 l
+    = (if j0 then [] else [t_semi l]) ++ (if first || negb j0 then [tk TEOL [10] l] else [])
+        ++ rec_toks g r (if first || negb j0 then l + 1 else l)
+        ++ gpos3_toks U F recs first false (if first || negb j0 then l + 1 else l).
+  Proof. intros g [[x1 y1] [x2 y2]] recs first j0 l. reflexivity. Qed.
+
+  Lemma gpos3_toks_first_irrel : forall recs f1 f2 l,
+    gpos3_toks U F recs f1 false l = gpos3_toks U F recs f2 false l.
+  Proof.
+    induction recs as [|[g r] recs IH]; intros f1 f2 l; [reflexivity|].
+    rewrite !gpos3_toks_cons. cbn [negb]. rewrite !orb_true_r. rewrite (IH f1 f2). reflexivity.
+  Qed.
+
+  Definition rec_ok (e : N * (anchor * anchor)) : Prop :=
+    fst e < num_glyphs F /\ anchor_ok (fst (snd e)) = true /\ anchor_ok (snd (snd e)) = true.
+
+  (* what may follow the records of a Gpos3 subtable *)
+  Definition ends3 (ts0 : list token) : Prop :=
+    ityp_eqb (ttyp (peek_tok endl ts0)) TSemi = false.
+
+  Lemma gpos3_recs_ok : forall recs g r l fuel data ts0,
+    ascending (map fst ((g, r) :: recs)) -> Forall rec_ok ((g, r) :: recs) ->
+    (forall d e, In d data -> In e ((g, r) :: recs) -> fst d < fst e) ->
+    ends3 ts0 ->
+    (length (rec_toks g r l ++ gpos3_toks U F recs false false l ++ ts0) < fuel)%nat ->
+    exists ts', gpos3_recs F endl fuel data (rec_toks g r l ++ gpos3_toks U F recs false false l ++ ts0)
+                = POk (data ++ (g, r) :: recs, ts') /\ norm ts' = norm ts0.
+  Proof.
+    induction recs as [|[g' r'] recs IH]; intros g r l fuel data ts0 Ha Hr Hd Hts Hf;
+      (destruct fuel as [|[|fu]]; [cbn in Hf; lia|cbn in Hf; lia|]);
+      inversion Hr as [|? ? Hg Hrs]; subst; destruct Hg as (Hg & He & Hx); cbn [fst snd] in Hg, He, Hx;
+      destruct r as [[x1 y1] [x2 y2]]; unfold anchor_ok in He, Hx; cbn [fst snd] in He, Hx;
+      apply andb_true_iff in He; apply andb_true_iff in Hx; destruct He as [He1 He2]; destruct Hx as [Hx1 Hx2];
+      unfold rec_toks; cbn [fst snd app gpos3_recs];
+      (assert (Hkey : assoc g data = None)
+         by (apply assoc_none_lt; apply Forall_forall; intros d Hdi; apply (Hd d (g, (x1, y1, (x2, y2)))); auto; left; reflexivity));
+      unfold bind at 1; unfold read_glyph; unfold bind at 1; rewrite rgl_one by (auto; reflexivity);
+      unfold ret at 1; unfold bind at 1; rewrite optional_hit by reflexivity;
+      unfold bind at 1; rewrite (read_int16_hit' _ x1) by (auto; apply atoi_digits_z);
+      unfold bind at 1; rewrite required_hit by reflexivity;
+      unfold bind at 1; rewrite (read_int16_hit' _ y1) by (auto; apply atoi_digits_z);
+      unfold bind at 1; unfold required_ident, bind at 1; cbn [read];
+      change (is_ident (tk TIdent k_to l) k_to) with true; cbv iota; unfold ret at 1;
+      unfold bind at 1; rewrite (read_int16_hit' _ x2) by (auto; apply atoi_digits_z);
+      unfold bind at 1; rewrite required_hit by reflexivity;
+      unfold bind at 1; rewrite (read_int16_hit' _ y2) by (auto; apply atoi_digits_z);
+      rewrite set_key_new by auto.
+    - cbn [gpos3_toks app]. unfold bind at 1. rewrite optional_miss_n by exact Hts.
+      unfold ret. eexists. split; [reflexivity|apply norm_idem].
+    - rewrite gpos3_toks_cons. cbn [orb negb app].
+      unfold bind at 1. rewrite optional_hit by reflexivity.
+      unfold bind at 1. rewrite optional_hit by reflexivity.
+      destruct (IH g' r' (l + 1) (S fu) (data ++ [(g, (x1, y1, (x2, y2)))]) ts0) as (ts' & E & Nn); auto.
+      + apply (ascending_tail g). exact Ha.
+      + intros d e Hdi Hei. apply in_app_or in Hdi. destruct Hdi as [Hdi|Hdi].
+        * apply Hd; auto. right. exact Hei.
+        * destruct Hdi as [Hdi|[]]. subst d. cbn [fst].
+          assert (HL : Forall (fun y => g < y) (map fst ((g', r') :: recs)))
+            by (apply (ascending_lt_all (map fst ((g', r') :: recs)) g); exact Ha).
+          rewrite Forall_forall in HL. apply HL. apply in_map. exact Hei.
+      + clear - Hf. rewrite gpos3_toks_cons in Hf. cbn [orb negb app] in Hf. unfold rec_toks in *. fuel_tac.
+      + exists ts'. split; auto. rewrite <- app_assoc in E. exact E.
+  Qed.
+
+  Definition g3_ok (p : pos_sub) : Prop := pos_wf F p = true /\ match p with Gpos3_1 _ _ => True | _ => False end.
+
+  Lemma gpos3_dl_first_irrel : forall recs f1 f2, gpos3_dl recs f1 false = gpos3_dl recs f2 false.
+  Proof.
+    induction recs as [|e recs IH]; intros f1 f2; [reflexivity|]. cbn [gpos3_dl negb]. rewrite !orb_true_r.
+    rewrite (IH f1 f2). reflexivity.
+  Qed.
+
+  Lemma g3_shape : forall p l, g3_ok p -> exists g r recs,
+    pos_toks U F p false l = rec_toks g r l ++ gpos3_toks U F recs false false l
+    /\ pos_toks U F p true l = tk TEOL [10] l :: pos_toks U F p false (l + 1)
+    /\ pos_dl p true = 1 + pos_dl p false
+    /\ p = Gpos3_1 (g :: map fst recs) (r :: map snd recs)
+    /\ ascending (map fst ((g, r) :: recs)) /\ Forall rec_ok ((g, r) :: recs).
+  Proof.
+    intros p l [W Wp]. destruct p as [cov records|]; [|contradiction]. cbn [pos_wf] in W. split_wf W.
+    assert (Ha : ascending cov) by (apply ascendingb_spec; assumption).
+    assert (Hc : Forall (fun g => g < num_glyphs F) cov) by (apply gids_ok_forall; assumption).
+    assert (Hl : length cov = length records) by (apply Nat.eqb_eq; assumption).
+    match goal with Hx : forallb _ records = true |- _ => apply forallb_Forall in Hx; rename Hx into Wr end.
+    destruct cov as [|g cov']; [discriminate|]. destruct records as [|r recs']; [discriminate|].
+    exists g, r, (combine cov' recs'). cbn [length] in Hl.
+    assert (Hl' : length cov' = length recs') by lia.
+    unfold pos_toks, pos_dl. cbn [combine]. rewrite !gpos3_toks_cons. cbn [orb negb app gpos3_dl].
+    rewrite (gpos3_toks_first_irrel _ true false). rewrite (gpos3_dl_first_irrel _ true false).
+    split; [reflexivity|]. split; [reflexivity|]. split; [cbn; lia|]. split; [|split].
+    - rewrite map_fst_combine by auto.
+      assert (E : map snd (combine cov' recs') = recs').
+      { clear - Hl'. revert recs' Hl'. induction cov'; destruct recs'; cbn; intros; try discriminate; auto.
+        f_equal. apply IHcov'. lia. }
+      rewrite E. reflexivity.
+    - cbn [map fst]. rewrite map_fst_combine by auto. exact Ha.
+    - assert (G : Forall (fun e : N * (anchor * anchor) => fst e < num_glyphs F /\ (anchor_ok (fst (snd e)) && anchor_ok (snd (snd e))) = true)
+                    (combine (g :: cov') (r :: recs'))).
+      { apply (Forall_combine (fun g => g < num_glyphs F) (fun r : anchor * anchor => (anchor_ok (fst r) && anchor_ok (snd r)) = true)); auto. }
+      cbn [combine] in G. eapply Forall_impl; [|exact G]. intros e [A B]. apply andb_true_iff in B.
+      unfold rec_ok. tauto.
+  Qed.
+
+  Definition ends_gpos3 (ts0 : list token) : Prop := ends_gpos ts0 /\ ends3 ts0.
+
+  Lemma gpos3_loop_ok : forall ps hdr p l fuel acc ts0,
+    Forall g3_ok (p :: ps) -> ends_gpos3 ts0 ->
+    (length (pos_toks U F p false l ++ subs_toks U F hdr (map Pos ps) false (l + pos_dl p false) ++ ts0) < fuel)%nat ->
+    exists ts', gpos3_loop F endl fuel acc (pos_toks U F p false l ++ subs_toks U F hdr (map Pos ps) false (l + pos_dl p false) ++ ts0)
+                = POk (acc ++ map Pos (p :: ps), ts') /\ norm ts' = norm ts0.
+  Proof.
+    induction ps as [|p' ps IH]; intros hdr p l fuel acc ts0 Hs [Hts H3] Hf;
+      (destruct fuel as [|fu]; [cbn in Hf; lia|]);
+      inversion Hs as [|? ? Hp Hps]; subst;
+      destruct (g3_shape p l Hp) as (g & r & recs & Et & _ & _ & Ep & Ha & Hr);
+      cbn [gpos3_loop]; rewrite Et in *.
+    - cbn [map subs_toks app] in *. rewrite <- app_assoc in *.
+      destruct (gpos3_recs_ok recs g r l (S fu) [] ts0 Ha Hr) as (ts' & E & Nn); auto; [intros d e []|].
+      unfold bind at 1. rewrite E. cbn [app]. cbv zeta.
+      destruct Hts as (A & B & C). unfold bind at 1.
+      rewrite optional_miss_n by (rewrite (peek_typ_same ts' ts0 Nn); exact C).
+      unfold ret. eexists. split; [|rewrite norm_idem; exact Nn].
+      assert (Hl : length (g :: map fst recs) = length (r :: map snd recs)) by (cbn; rewrite !map_length; reflexivity).
+      assert (Ec : combine (g :: map fst recs) (r :: map snd recs) = (g, r) :: recs).
+      { cbn [combine]. f_equal. clear. induction recs as [|[a b] rs IHr]; cbn; auto. f_equal; auto. }
+      rewrite <- Ec. rewrite build_cov_combine; auto; try (cbn [map fst] in Ha; exact Ha).
+      rewrite map_get_combine; auto; try (cbn [map fst] in Ha; exact Ha). subst p. reflexivity.
+    - cbn [map subs_toks] in *. cbn [sub_toksp sub_dlp] in *. rewrite <- !app_assoc in *. cbn [app] in *.
+      set (l0 := l + pos_dl p false) in *.
+      set (X := tk TOr [124; 124] l0 :: tk TEOL [10] l0 :: pos_toks U F p' false (l0 + 1)
+                  ++ subs_toks U F hdr (map Pos ps) false (l0 + 1 + pos_dl p' false) ++ ts0) in *.
+      destruct (gpos3_recs_ok recs g r l (S fu) [] X Ha Hr) as (ts' & E & Nn); auto;
+        [intros d e []|reflexivity|].
+      unfold X in Nn. rewrite norm_cons2 in Nn. apply norm_eq_cons in Nn. subst ts'.
+      unfold bind at 1. rewrite E. cbn [app]. cbv zeta.
+      unfold bind at 1. rewrite optional_hit by reflexivity.
+      unfold bind at 1. rewrite optional_hit by reflexivity.
+      assert (Hl : length (g :: map fst recs) = length (r :: map snd recs)) by (cbn; rewrite !map_length; reflexivity).
+      assert (Ec : combine (g :: map fst recs) (r :: map snd recs) = (g, r) :: recs).
+      { cbn [combine]. f_equal. clear. induction recs as [|[a b] rs IHr]; cbn; auto. f_equal; auto. }
+      rewrite <- Ec. rewrite build_cov_combine; auto; try (cbn [map fst] in Ha; exact Ha).
+      rewrite map_get_combine; auto; try (cbn [map fst] in Ha; exact Ha). rewrite <- Ep.
+      destruct (IH hdr p' (l0 + 1) fu (acc ++ [Pos p]) ts0 Hps (conj Hts H3)) as (ts'' & E2 & N2).
+      + clear - Hf. unfold X in Hf. unfold rec_toks in Hf. fuel_tac.
+      + exists ts''. split; auto. rewrite E2. rewrite <- app_assoc. reflexivity.
+  Qed.
+
+  Lemma g3_subs_shape : forall subs,
+    forallb (fun s => match s with Pos (Gpos3_1 c r) => pos_wf F (Gpos3_1 c r) | _ => false end) subs = true ->
+    exists ps, subs = map Pos ps /\ Forall g3_ok ps.
+  Proof.
+    induction subs as [|s r IH]; intros H.
+    - exists []. split; auto.
+    - cbn [forallb] in H. apply andb_true_iff in H. destruct H as [H1 H2].
+      destruct (IH H2) as (ps & E & Hc). destruct s as [p| | | | | | | | |]; try discriminate.
+      destruct p as [c r0|]; [|discriminate]. exists (Gpos3_1 c r0 :: ps). subst. split; auto. constructor; auto. split; auto.
+  Qed.
+
+  Lemma gpos_one_3 : forall lk l fu acc ts0, gpos3_lookup_wf F lk = true -> ends_gpos3 ts0 ->
+    (length (lookup_toks U F k_GPOS lk l ++ ts0) < S (S fu))%nat ->
+    exists ts', parse_loop F endl (S (S fu)) acc (lookup_toks U F k_GPOS lk l ++ ts0)
+                = parse_loop F endl (S fu) (acc ++ [lk]) ts' /\ norm ts' = norm ts0.
+  Proof.
+    intros lk l fu acc ts0 Hlk Hts Hf. unfold gpos3_lookup_wf in Hlk. split_wf Hlk.
+    destruct lk as [ty fl subs]. cbn [l_type l_flags l_subs] in *.
+    match goal with Hx : (ty =? 3) = true |- _ => apply N.eqb_eq in Hx; subst ty end.
+    match goal with Hx : forallb _ subs = true |- _ => destruct (g3_subs_shape _ Hx) as (ps & Es & Hps) end.
+    subst subs. destruct ps as [|p ps]; [discriminate|].
+    inversion Hps as [|? ? Hp _]; subst.
+    destruct (g3_shape p l Hp) as (g & r & recs & Et & Et1 & Ed1 & _).
+    unfold lookup_toks, hdr_toks in *. cbn [l_subs l_type l_flags map subs_toks sub_toksp sub_dlp app] in *.
+    rewrite Et1, Ed1 in *. rewrite <- !app_assoc in *. cbn [app] in *.
+    replace (l + (1 + pos_dl p false)) with (l + 1 + pos_dl p false) in * by lia.
+    cbn [parse_loop]. unfold bind at 1. cbn [read ttyp tval].
+    change (list_eqb (k_GPOS ++ digits 3) k_GSUB1) with false. change (list_eqb (k_GPOS ++ digits 3) k_GSUB2) with false.
+    change (list_eqb (k_GPOS ++ digits 3) k_GSUB3) with false. change (list_eqb (k_GPOS ++ digits 3) k_GSUB4) with false.
+    change (list_eqb (k_GPOS ++ digits 3) k_GSUB5) with false. change (list_eqb (k_GPOS ++ digits 3) k_GSUB6) with false.
+    change (list_eqb (k_GPOS ++ digits 3) k_GPOS1) with false. change (list_eqb (k_GPOS ++ digits 3) k_GPOS2) with false.
+    change (list_eqb (k_GPOS ++ digits 3) k_GPOS3) with true. cbv iota.
+    unfold bind at 1. unfold read_gpos3. unfold bind at 1.
+    destruct (g3_shape p (l + 1) Hp) as (g2 & r2 & recs2 & Et2 & _).
+    assert (Eh : exists t ts, pos_toks U F p false (l + 1) = t :: ts /\ after_flags t = true).
+    { rewrite Et2. unfold rec_toks. cbn [app]. eexists. eexists. split; [reflexivity|apply after_flags_glyph_tok]. }
+    destruct Eh as (t & ts & Eh & Ah). rewrite Eh in *. cbn [app] in *.
+    rewrite header_ok_nl; auto; [|clear - Hf; fuel_tac].
+    change (t :: ts ++ subs_toks U F (fun l0 => tk TIdent (k_GPOS ++ digits 3) l0 :: tk TColon [58] l0 :: flag_toks fl l0) (map Pos ps) false (l + 1 + pos_dl p false) ++ ts0)
+      with ((t :: ts) ++ subs_toks U F (fun l0 => tk TIdent (k_GPOS ++ digits 3) l0 :: tk TColon [58] l0 :: flag_toks fl l0) (map Pos ps) false (l + 1 + pos_dl p false) ++ ts0).
+    rewrite <- Eh in *.
+    destruct (gpos3_loop_ok ps (fun l0 => tk TIdent (k_GPOS ++ digits 3) l0 :: tk TColon [58] l0 :: flag_toks fl l0) p (l + 1) (S (S fu)) [] ts0 Hps Hts) as (ts' & El & En).
+    - rewrite Eh. clear - Hf. fuel_tac.
+    - unfold bind at 1. rewrite El. cbn [app]. unfold ret, mk_lookup. exists ts'. auto.
+  Qed.
+
+  (* ================= GPOS4 ================= *)
+  (* the loops of readGpos4 (and readGpos2, format 2) swallow the newline after
+     their last line *)
+  Definition skip_eol (ts : list token) : list token :=
+    match ts with t :: r => if ityp_eqb (ttyp t) TEOL then r else ts | [] => [] end.
+
+  Lemma optional_eol_skip : forall ts, exists b ts',
+    optional endl TEOL ts = POk (b, ts') /\ norm ts' = norm (skip_eol ts).
+  Proof.
+    intros [|t r].
+    - exists false, (norm []). split; [apply optional_miss_n; reflexivity|reflexivity].
+    - cbn [skip_eol]. destruct (ityp_eqb (ttyp t) TEOL) eqn:E.
+      + exists true, r. split; [apply optional_hit; exact E|reflexivity].
+      + exists false, (norm (t :: r)). split; [apply optional_miss_n; exact E|apply norm_idem].
+  Qed.
+
+  Lemma is_ident_norm : forall ts s, is_ident (peek_tok endl (norm ts)) s = is_ident (peek_tok endl ts) s.
+  Proof.
+    intros [|t [|t' r]] s; cbn; auto. destruct (is_syn_eof endl t) eqn:E; cbn; auto.
+    unfold is_syn_eof in E. repeat (apply andb_true_iff in E; destruct E as [E ?]).
+    unfold is_ident. destruct (ttyp t); cbn in E; try discriminate. reflexivity.
+  Qed.
+
+  Lemma peek_ident_same : forall a b s, norm a = norm b ->
+    is_ident (peek_tok endl a) s = is_ident (peek_tok endl b) s.
+  Proof. intros a b s H. rewrite <- (is_ident_norm a), <- (is_ident_norm b), H. reflexivity. Qed.
+
+  Lemma optional_ident_miss_n : forall s ts, is_ident (peek_tok endl ts) s = false ->
+    optional_ident endl s ts = POk (false, norm ts).
+  Proof.
+    intros s ts H. destruct (read_unread ts) as [R W]. unfold optional_ident, bind. rewrite R, H, W. reflexivity.
+  Qed.
+
+  Lemma optional_ident_hit : forall s l ts, optional_ident endl s (tk TIdent s l :: ts) = POk (true, ts).
+  Proof.
+    intros s l ts. unfold optional_ident, bind, read, is_ident. cbn [ttyp tval ityp_eqb].
+    rewrite list_eqb_refl. reflexivity.
+  Qed.
+
+  Lemma read_uint16_hit : forall c l ts, c < 65536 ->
+    read_uint16 endl (tk TInt (digits c) l :: ts) = POk (c, ts).
+  Proof.
+    intros c l ts H. unfold read_uint16, bind, read. cbn [ttyp ityp_eqb tval]. rewrite atoi_digits_nat.
+    assert (E : ((Z.of_N c <? 0)%Z || (65535 <? Z.of_N c)%Z) = false) by lia. rewrite E.
+    rewrite N2Z.id. reflexivity.
+  Qed.
+
+  Lemma lines_toks_app_gen : forall a b first l,
+    lines_toks (a ++ b) first l
+    = lines_toks a first l ++ lines_toks b (if is_nil a then first else true) (l + lines_dl (length a) first).
+  Proof.
+    induction a as [|it r IH]; intros b first l.
+    - cbn. rewrite N.add_0_r. reflexivity.
+    - cbn [app lines_toks lines_dl length is_nil]. rewrite IH. rewrite <- !app_assoc.
+      f_equal. f_equal. f_equal.
+      assert (E : (if is_nil r then true else true) = true) by (destruct r; reflexivity). rewrite E.
+      f_equal. destruct first; lia.
+  Qed.
+
+  Lemma not_after_ok : forall gl g, (forall q, last_opt gl = Some q -> q < g) -> not_after gl g = false.
+  Proof.
+    intros gl g H. unfold not_after. destruct (last_opt gl) as [q|]; auto.
+    specialize (H q eq_refl). apply N.leb_gt. exact H.
+  Qed.
+
+  Definition mark_ok (e : N * (N * anchor)) : Prop :=
+    fst e < num_glyphs F /\ fst (snd e) < 65536 /\ anchor_ok (snd (snd e)) = true.
+
+  Lemma gpos4_marks_ok : forall ms m l fuel gl ma tail,
+    Forall mark_ok (m :: ms) -> ascending (map fst (m :: ms)) ->
+    (forall q, last_opt gl = Some q -> q < fst m) ->
+    is_ident (peek_tok endl (skip_eol tail)) k_mark = false ->
+    (length (lines_toks (map (mark_toks U F) (m :: ms)) false l ++ tail) < fuel)%nat ->
+    exists ts', gpos4_marks F endl fuel gl ma (lines_toks (map (mark_toks U F) (m :: ms)) false l ++ tail)
+                = POk ((gl ++ map fst (m :: ms), ma ++ map snd (m :: ms)), ts')
+                /\ norm ts' = norm (skip_eol tail).
+  Proof.
+    induction ms as [|m' ms IH]; intros m l fuel gl ma tail Hm Ha Hl Ht Hf;
+      (destruct fuel as [|[|fu]]; [cbn in Hf; lia|cbn in Hf; lia|]);
+      inversion Hm as [|? ? Hm1 Hms]; subst; destruct Hm1 as (Hg & Hc & Hxy);
+      destruct m as [g [cls [x y]]]; cbn [fst snd] in Hg, Hc, Hxy, Hl;
+      unfold anchor_ok in Hxy; cbn [fst snd] in Hxy; apply andb_true_iff in Hxy; destruct Hxy as [Hx Hy];
+      cbn [map lines_toks app]; unfold mark_toks at 1; cbn [fst snd app gpos4_marks];
+      unfold bind at 1; rewrite optional_ident_hit; cbv iota;
+      unfold bind at 1; unfold read_glyph; unfold bind at 1; rewrite rgl_one by (auto; reflexivity);
+      unfold ret at 1; rewrite (not_after_ok gl g Hl);
+      unfold bind at 1; rewrite optional_hit by reflexivity;
+      unfold bind at 1; rewrite read_uint16_hit by exact Hc;
+      unfold bind at 1; rewrite required_hit by reflexivity;
+      unfold bind at 1; rewrite (read_int16_hit' _ x) by (auto; apply atoi_digits_z);
+      unfold bind at 1; rewrite required_hit by reflexivity;
+      unfold bind at 1; rewrite (read_int16_hit' _ y) by (auto; apply atoi_digits_z);
+      unfold bind at 1; rewrite optional_hit by reflexivity.
+    - cbn [lines_toks app]. destruct (optional_eol_skip tail) as (b & ts1 & E1 & N1).
+      unfold bind at 1. rewrite E1. cbn [gpos4_marks].
+      unfold bind at 1. rewrite optional_ident_miss_n by (rewrite (peek_ident_same ts1 (skip_eol tail)); auto).
+      unfold ret. eexists. split; [reflexivity|]. rewrite norm_idem. exact N1.
+    - cbn [map lines_toks app]. unfold bind at 1. rewrite optional_hit by reflexivity.
+      destruct (IH m' (l + 1) (S fu) (gl ++ [g]) (ma ++ [(cls, (x, y))]) tail Hms) as (ts' & E & Nn); auto.
+      + apply (ascending_tail g). exact Ha.
+      + intros q Hq. rewrite last_opt_app in Hq. injection Hq as Hq. subst q.
+        assert (HL : Forall (fun y => g < y) (map fst (m' :: ms)))
+          by (apply (ascending_lt_all (map fst (m' :: ms)) g); exact Ha).
+        inversion HL; auto.
+      + clear - Hf. cbn [map lines_toks app] in *. unfold mark_toks in *. fuel_tac.
+      + exists ts'. split; auto. cbn [map lines_toks app] in E. Show. rewrite E.
+        cbn [map fst snd]. rewrite <- !app_assoc. reflexivity.
+  Qed.
+
+  Lemma gpos4_anchors_ok : forall an i0 l rest, Forall (fun a => anchor_ok a = true) an ->
+    gpos4_anchors endl (length an) i0 (concat (map (fun a => anchor_toks a l) an) ++ t_semi l :: rest)
+    = POk (an, t_semi l :: rest).
+  Proof.
+    induction an as [|[x y] an IH]; intros i0 l rest H; [reflexivity|].
+    inversion H as [|? ? Ha Hr]; subst. unfold anchor_ok in Ha. cbn [fst snd] in Ha.
+    apply andb_true_iff in Ha. destruct Ha as [Hx Hy].
+    cbn [length gpos4_anchors map concat]. unfold anchor_toks at 1. cbn [fst snd app].
+    assert (E0 : ((if i0 then ret false else optional endl TComma) ;;;
+                  required endl TAt ;;; x0 <- read_int16 endl ;; required endl TComma ;;; y0 <- read_int16 endl ;;
+                  r <- gpos4_anchors endl (length an) false ;; ret ((x0, y0) :: r))
+                 (t_at l :: tk TInt (digits_z x) l :: t_comma l :: tk TInt (digits_z y) l
+                    :: concat (map (fun a => anchor_toks a l) an) ++ t_semi l :: rest)
+               = (required endl TAt ;;; x0 <- read_int16 endl ;; required endl TComma ;;; y0 <- read_int16 endl ;;
+                  r <- gpos4_anchors endl (length an) false ;; ret ((x0, y0) :: r))
+                 (t_at l :: tk TInt (digits_z x) l :: t_comma l :: tk TInt (digits_z y) l
+                    :: concat (map (fun a => anchor_toks a l) an) ++ t_semi l :: rest)).
+    { destruct i0; unfold bind at 1; [reflexivity|]. rewrite optional_miss by reflexivity. reflexivity. }
+    rewrite E0.
+    unfold bind at 1. rewrite required_hit by reflexivity.
+    unfold bind at 1. rewrite (read_int16_hit' _ x) by (auto; apply atoi_digits_z).
+    unfold bind at 1. rewrite required_hit by reflexivity.
+    unfold bind at 1. rewrite (read_int16_hit' _ y) by (auto; apply atoi_digits_z).
+    unfold bind at 1. rewrite IH by auto. reflexivity.
+  Qed.
+
+  Definition base_ok (nc : nat) (e : N * list anchor) : Prop :=
+    fst e < num_glyphs F /\ length (snd e) = nc /\ Forall (fun a => anchor_ok a = true) (snd e).
+
+  Lemma gpos4_bases_ok : forall bs b l fuel nc gl ba tail,
+    Forall (base_ok nc) (b :: bs) -> ascending (map fst (b :: bs)) ->
+    (forall q, last_opt gl = Some q -> q < fst b) ->
+    is_ident (peek_tok endl (skip_eol tail)) k_base = false ->
+    (length (lines_toks (map (base_toks U F) (b :: bs)) false l ++ tail) < fuel)%nat ->
+    exists ts', gpos4_bases F endl fuel nc gl ba (lines_toks (map (base_toks U F) (b :: bs)) false l ++ tail)
+                = POk ((gl ++ map fst (b :: bs), ba ++ map snd (b :: bs)), ts')
+                /\ norm ts' = norm (skip_eol tail).
+  Proof.
+    induction bs as [|b' bs IH]; intros b l fuel nc gl ba tail Hb Ha Hl Ht Hf;
+      (destruct fuel as [|[|fu]]; [cbn in Hf; lia|cbn in Hf; lia|]);
+      inversion Hb as [|? ? Hb1 Hbs]; subst; destruct Hb1 as (Hg & Hn & Han);
+      destruct b as [g an]; cbn [fst snd] in Hg, Hn, Han, Hl; subst nc;
+      cbn [map lines_toks app]; unfold base_toks at 1; cbn [fst snd app gpos4_bases];
+      rewrite <- !app_assoc; cbn [app];
+      unfold bind at 1; rewrite optional_ident_hit; cbv iota;
+      unfold bind at 1; unfold read_glyph; unfold bind at 1; rewrite rgl_one by (auto; reflexivity);
+      unfold ret at 1; rewrite (not_after_ok gl g Hl);
+      unfold bind at 1; rewrite optional_hit by reflexivity;
+      unfold bind at 1; rewrite gpos4_anchors_ok by exact Han;
+      unfold bind at 1; rewrite optional_hit by reflexivity.
+    - cbn [lines_toks app]. destruct (optional_eol_skip tail) as (b0 & ts1 & E1 & N1).
+      unfold bind at 1. rewrite E1. cbn [gpos4_bases].
+      unfold bind at 1. rewrite optional_ident_miss_n by (rewrite (peek_ident_same ts1 (skip_eol tail)); auto).
+      unfold ret. eexists. split; [reflexivity|]. rewrite norm_idem. exact N1.
+    - cbn [map lines_toks app]. unfold bind at 1. rewrite optional_hit by reflexivity.
+      destruct (IH b' (l + 1) (S fu) (length an) (gl ++ [g]) (ba ++ [an]) tail Hbs) as (ts' & E & Nn); auto.
+      + apply (ascending_tail g). exact Ha.
+      + intros q Hq. rewrite last_opt_app in Hq. injection Hq as Hq. subst q.
+        assert (HL : Forall (fun y => g < y) (map fst (b' :: bs)))
+          by (apply (ascending_lt_all (map fst (b' :: bs)) g); exact Ha).
+        inversion HL; auto.
+      + clear - Hf. cbn [map lines_toks app] in *. unfold base_toks in *. fuel_tac.
+      + exists ts'. split; auto. cbn [map lines_toks app] in E. rewrite E.
+        cbn [map fst snd]. rewrite <- !app_assoc. reflexivity.
+  Qed.
+
+  (* one GPOS lookup inside parse(): the generic list lemma *)
+  Definition ends_top (ts0 : list token) : Prop :=
+    ttyp (peek_tok endl ts0) = TEOL \/ ttyp (peek_tok endl ts0) = TEOF.
+  Lemma ends_top_gpos : forall ts0, ends_top ts0 -> ends_gpos ts0.
+  Proof. intros ts0 [H|H]; unfold ends_gpos; rewrite H; repeat split; reflexivity. Qed.
+  Lemma ends_top_gpos3 : forall ts0, ends_top ts0 -> ends_gpos3 ts0.
+  Proof.
+    intros ts0 H. split; [apply ends_top_gpos; auto|]. destruct H as [H|H]; unfold ends3; rewrite H; reflexivity.
+  Qed.
+
+  Lemma gpos_list_ok : forall (wf : lookup -> Prop),
+    (forall lk, wf lk -> l_subs lk <> []) ->
+    (forall (lk : lookup) (l : N) (fu : nat) (acc : list lookup) (ts0 : list token), wf lk -> ends_top ts0 ->
+       (length (lookup_toks U F k_GPOS lk l ++ ts0) < S (S fu))%nat ->
+       exists ts', parse_loop F endl (S (S fu)) acc (lookup_toks U F k_GPOS lk l ++ ts0)
+                   = parse_loop F endl (S fu) (acc ++ [lk]) ts' /\ norm ts' = norm ts0) ->
+    forall ll l fuel acc e, Forall wf ll ->
+    (length (gpos_toks U F ll l ++ [tk TEOF [] e]) < fuel)%nat ->
+    exists ts', parse_loop F endl fuel acc (gpos_toks U F ll l ++ [tk TEOF [] e]) = POk (acc ++ ll, ts').
+  Proof.
+    intros wf Hne Hone. induction ll as [|lk r IH]; intros l fuel acc e H Hf.
+    - destruct fuel; [cbn in Hf; lia|]. cbn. rewrite app_nil_r. eexists. reflexivity.
+    - inversion H as [|? ? Hlk Hr]; subst.
+      pose proof (lookup_toks_len k_GPOS lk l (Hne lk Hlk)) as Hl2.
+      destruct r as [|lk2 r'].
+      + cbn [gpos_toks] in *.
+        destruct fuel as [|[|fu]]; try (exfalso; clear - Hf Hl2; fuel_tac).
+        destruct (Hone lk l fu acc [tk TEOF [] e] Hlk) as (ts' & Er & En); [right; reflexivity|exact Hf|].
+        rewrite Er. cbn [parse_loop]. unfold bind at 1.
+        destruct (read_unread ts') as [R _]. rewrite R.
+        rewrite (peek_typ_same ts' [tk TEOF [] e] En). cbn [peek_tok ttyp]. unfold ret. eauto.
+      + assert (Eg : gpos_toks U F (lk :: lk2 :: r') l
+                     = lookup_toks U F k_GPOS lk l ++ [tk TEOL [10] (l + subs_dl (l_subs lk))]
+                         ++ gpos_toks U F (lk2 :: r') (l + subs_dl (l_subs lk) + 1)) by reflexivity.
+        rewrite Eg in *. clear Eg. rewrite <- !app_assoc in *. cbn [app] in *.
+        set (rest := gpos_toks U F (lk2 :: r') (l + subs_dl (l_subs lk) + 1) ++ [tk TEOF [] e]) in *.
+        destruct fuel as [|[|fu]]; try (exfalso; clear - Hf Hl2; fuel_tac).
+        destruct (Hone lk l fu acc (tk TEOL [10] (l + subs_dl (l_subs lk)) :: rest) Hlk) as (ts' & Er & En);
+          [left; reflexivity|exact Hf|].
+        rewrite norm_cons_ne in En by reflexivity. apply norm_eq_cons in En. subst ts'.
+        rewrite Er.
+        destruct fu as [|fu']; [exfalso; unfold rest in *; clear - Hf Hl2; fuel_tac|].
+        change (parse_loop F endl (S (S fu')) (acc ++ [lk]) (tk TEOL [10] (l + subs_dl (l_subs lk)) :: rest))
+          with (parse_loop F endl (S fu') (acc ++ [lk]) rest).
+        destruct (IH (l + subs_dl (l_subs lk) + 1) (S fu') (acc ++ [lk]) e Hr) as (ts'' & E2).
+        * unfold rest in *. clear - Hf Hl2. fuel_tac.
+        * exists ts''. unfold rest. rewrite <- app_assoc in E2. exact E2.
+  Qed.
+
+  Lemma gpos_one_1 : forall lk l fu acc ts0, gpos_lookup_wf F lk = true -> ends_gpos ts0 ->
+    (length (lookup_toks U F k_GPOS lk l ++ ts0) < S (S fu))%nat ->
+    exists ts', parse_loop F endl (S (S fu)) acc (lookup_toks U F k_GPOS lk l ++ ts0)
+                = parse_loop F endl (S fu) (acc ++ [lk]) ts' /\ norm ts' = norm ts0.
+  Proof.
+    intros lk l fu acc ts0 Hlk Hts Hf.
+    destruct (read_gpos1_ok lk l (S (S fu)) ts0 Hlk Hts Hf) as (ts' & Er & En).
+    exists ts'. split; auto. rewrite (gpos_head lk l Hlk). cbn [app parse_loop].
+    unfold bind at 1. cbn [read ttyp tval].
+    change (list_eqb k_GPOS1 k_GSUB1) with false. change (list_eqb k_GPOS1 k_GSUB2) with false.
+    change (list_eqb k_GPOS1 k_GSUB3) with false. change (list_eqb k_GPOS1 k_GSUB4) with false.
+    change (list_eqb k_GPOS1 k_GSUB5) with false. change (list_eqb k_GPOS1 k_GSUB6) with false.
+    change (list_eqb k_GPOS1 k_GPOS1) with true. cbv iota.
+    unfold bind at 1. rewrite Er. reflexivity.
+  Qed.
+
   Lemma gpos_parse_ok : forall ll l fuel acc e,
     Forall (fun lk => gpos_lookup_wf F lk = true) ll ->
     (length (gpos_toks U F ll l ++ [tk TEOF [] e]) < fuel)%nat ->
     exists ts', parse_loop F endl fuel acc (gpos_toks U F ll l ++ [tk TEOF [] e]) = POk (acc ++ ll, ts').
   Proof.
-    induction ll as [|lk r IH]; intros l fuel acc e H Hf.
-    - destruct fuel; [cbn in Hf; lia|]. cbn. rewrite app_nil_r. eexists. reflexivity.
-    - inversion H as [|? ? Hlk Hr]; subst.
-      destruct fuel as [|[|fu]]; try (cbn in Hf; fuel_tac).
-      destruct r as [|lk2 r'].
-      + cbn [gpos_toks] in *. rewrite (gpos_head lk l Hlk) in *. cbn [app parse_loop].
-        unfold bind at 1. cbn [read ttyp tval].
-        change (list_eqb k_GPOS1 k_GSUB1) with false. change (list_eqb k_GPOS1 k_GSUB2) with false.
-        change (list_eqb k_GPOS1 k_GSUB3) with false. change (list_eqb k_GPOS1 k_GSUB4) with false.
-        change (list_eqb k_GPOS1 k_GSUB5) with false. change (list_eqb k_GPOS1 k_GSUB6) with false.
-        change (list_eqb k_GPOS1 k_GPOS1) with true. cbv iota.
-        destruct (read_gpos1_ok lk l (S (S fu)) [tk TEOF [] e] Hlk) as (ts' & Er & En).
-        * repeat split; reflexivity.
-        * rewrite (gpos_head lk l Hlk). clear - Hf. fuel_tac.
-        * unfold bind at 1. rewrite Er. cbn [parse_loop]. unfold bind at 1.
-          destruct (read_unread ts') as [R _]. rewrite R.
-          rewrite (peek_typ_same ts' [tk TEOF [] e] En). cbn [peek_tok ttyp]. unfold ret. eauto.
-      + assert (Eg : gpos_toks U F (lk :: lk2 :: r') l
-                     = lookup_toks U F k_GPOS lk l ++ [tk TEOL [10] (l + subs_dl (l_subs lk))]
-                         ++ gpos_toks U F (lk2 :: r') (l + subs_dl (l_subs lk) + 1)) by reflexivity.
-        rewrite Eg in *. clear Eg. rewrite (gpos_head lk l Hlk) in *. rewrite <- !app_assoc in *. cbn [app] in *.
-        set (rest := gpos_toks U F (lk2 :: r') (l + subs_dl (l_subs lk) + 1) ++ [tk TEOF [] e]) in *.
-        cbn [parse_loop]. unfold bind at 1. cbn [read ttyp tval].
-        change (list_eqb k_GPOS1 k_GSUB1) with false. change (list_eqb k_GPOS1 k_GSUB2) with false.
-        change (list_eqb k_GPOS1 k_GSUB3) with false. change (list_eqb k_GPOS1 k_GSUB4) with false.
-        change (list_eqb k_GPOS1 k_GSUB5) with false. change (list_eqb k_GPOS1 k_GSUB6) with false.
-        change (list_eqb k_GPOS1 k_GPOS1) with true. cbv iota.
-        destruct (read_gpos1_ok lk l (S (S fu)) (tk TEOL [10] (l + subs_dl (l_subs lk)) :: rest) Hlk) as (ts' & Er & En).
-        * repeat split; reflexivity.
-        * rewrite (gpos_head lk l Hlk). unfold rest in *. clear - Hf. fuel_tac.
-        * rewrite norm_cons_ne in En by reflexivity. apply norm_eq_cons in En. subst ts'.
-          unfold bind at 1. rewrite Er.
-          destruct fu as [|fu']; [exfalso; unfold rest in *; clear - Hf; fuel_tac|].
-          change (parse_loop F endl (S (S fu')) (acc ++ [lk]) (tk TEOL [10] (l + subs_dl (l_subs lk)) :: rest))
-            with (parse_loop F endl (S fu') (acc ++ [lk]) rest).
-          destruct (IH (l + subs_dl (l_subs lk) + 1) (S fu') (acc ++ [lk]) e Hr) as (ts'' & E2).
-          -- unfold rest in *. clear - Hf. fuel_tac.
-          -- exists ts''. unfold rest. rewrite <- app_assoc in E2. exact E2.
+    apply (gpos_list_ok (fun lk => gpos_lookup_wf F lk = true)).
+    - intros lk H E. unfold gpos_lookup_wf in H. rewrite E in H. cbn [is_nil negb] in H.
+      rewrite andb_false_r in H. discriminate.
+    - intros. apply gpos_one_1; auto. apply ends_top_gpos; auto.
+  Qed.
+
+  Lemma gpos_all_parse_ok : forall ll l fuel acc e,
+    Forall (fun lk => gpos_lookup_wf_all F lk = true) ll ->
+    (length (gpos_toks U F ll l ++ [tk TEOF [] e]) < fuel)%nat ->
+    exists ts', parse_loop F endl fuel acc (gpos_toks U F ll l ++ [tk TEOF [] e]) = POk (acc ++ ll, ts').
+  Proof.
+    apply (gpos_list_ok (fun lk => gpos_lookup_wf_all F lk = true)).
+    - intros lk H E. unfold gpos_lookup_wf_all, gpos_lookup_wf, gpos3_lookup_wf in H. rewrite E in H.
+      cbn [is_nil negb] in H. rewrite ?andb_false_r in H. discriminate.
+    - intros lk l fu acc ts0 H Ht Hf. unfold gpos_lookup_wf_all in H.
+      repeat (apply orb_true_iff in H; destruct H as [H|H]).
+      + apply gpos_one_1; auto. apply ends_top_gpos; auto.
+      + apply gpos_one_3; auto. apply ends_top_gpos3; auto.
   Qed.
 End Parse.
 
@@ -2646,6 +3132,17 @@ Proof.
   intros U F ll HF Hll. unfold M_parse. rewrite (ProofsExplain.lex_explain_gpos U F HF ll Hll).
   unfold M_parse_tokens.
   destruct (gpos_parse_ok U F HF (end_line (gpos_toks U F ll 1 ++ [tk TEOF [] (1 + gpos_dl ll)])) ll 1
+              (S (S (length (gpos_toks U F ll 1 ++ [tk TEOF [] (1 + gpos_dl ll)])))) [] (1 + gpos_dl ll) Hll)
+    as (ts' & E); [lia|]. rewrite E. reflexivity.
+Qed.
+
+Theorem parse_explain_gpos_all : forall U F ll,
+  font_wf U F = true -> Forall (fun lk => gpos_lookup_wf_all F lk = true) ll ->
+  M_parse U F (M_explain_gpos U F ll) = POk ll.
+Proof.
+  intros U F ll HF Hll. unfold M_parse. rewrite (ProofsExplain.lex_explain_gpos_all U F HF ll Hll).
+  unfold M_parse_tokens.
+  destruct (gpos_all_parse_ok U F HF (end_line (gpos_toks U F ll 1 ++ [tk TEOF [] (1 + gpos_dl ll)])) ll 1
               (S (S (length (gpos_toks U F ll 1 ++ [tk TEOF [] (1 + gpos_dl ll)])))) [] (1 + gpos_dl ll) Hll)
     as (ts' & E); [lia|]. rewrite E. reflexivity.
 Qed.
